@@ -220,9 +220,17 @@ type vaddr struct{}
 func (vaddr) Network() string { return "vconn" }
 func (vaddr) String() string  { return "vconn:0" }
 
-func (v *VConn) LocalAddr() net.Addr                { return vaddr{} }
-func (v *VConn) RemoteAddr() net.Addr               { return vaddr{} }
-func (v *VConn) SetDeadline(t time.Time) error      { return nil }
+func (v *VConn) LocalAddr() net.Addr  { return vaddr{} }
+func (v *VConn) RemoteAddr() net.Addr { return vaddr{} }
+
+// SetDeadline sets the read deadline as well (the write deadline is not tracked).
+func (v *VConn) SetDeadline(t time.Time) error {
+	v.mu.Lock()
+	v.deadlineSet = !t.IsZero()
+	v.deadline = t
+	v.mu.Unlock()
+	return nil
+}
 func (v *VConn) SetWriteDeadline(t time.Time) error { return nil }
 
 // settle waits until every goroutine other than the caller is blocked (not running, runnable or
